@@ -107,19 +107,19 @@ func C02(o *core.Options) int {
 	r := core.NewReport(o, "exploration",
 		"for every world (model family representatives x tuple subsets of size<=2) and every request: commands.CheckQuery over the real resolver chain with a scripted planner, under EVERY assignment of an offered strategy to every consulted plan key (closure), x 3 tuning corners (breadth limit, read concurrency, dispatch throttling; in quick the two non-default corners run the default assignment only), each run twice; plus the request set of each world run concurrently on one resolver; plus ListObjects through servers with different pipeline/breadth tunings; oracle: one outcome per request, equal to the reference; non-trivial = requests for which some plan key offered more than one strategy (distinct by world+request)")
 	r.Assume("memory datastore; whole-engine runs use the Go scheduler's own interleaving (one per run); schedule-quantified clauses are decided by the E1 harnesses (C21/C22)",
-		"model family as in C01 (quick: one model of every 24th r0-signature class, of every 2nd twin-branch class and of every 9th mixed-parent tuple-to-userset class, rotated by VERIF_SEED; thorough: every class)")
+		"model family as in C01 (quick: one model of every 48th r0-signature class, of every 4th twin-branch class and of every 18th mixed-parent tuple-to-userset class, rotated by VERIF_SEED; thorough: every class); chains with a leftover tuple: 5 recursive models over three groups / three docs, two valid tuples plus one stored tuple the model does not admit")
 	if o.Replay != "" {
 		return replayC02(o, r)
 	}
 	all := e2.ValidModels(ref.Family(ref.FamilyOpts{Conds: true}))
 	reps := ref.Representatives(all, 1, o.Seed)
 	var models []*ref.Model
-	stride, r1stride, twinstride := 24, 9, 2
+	stride, r1stride, twinstride := 48, 18, 4
 	if o.Thorough() {
 		stride, r1stride, twinstride = 1, 1, 1
 	}
 	for i, m := range reps {
-		// quick: every 24th class, every 2nd twin-branch class and every 9th mixed-parent TTU class (rotated by the seed)
+		// quick: every 48th class, every 4th twin-branch class and every 18th mixed-parent TTU class (rotated by the seed)
 		k := i + int(o.Seed)
 		if k%stride == 0 || (m.IsTwin() && k%twinstride == 0) || (strings.Contains(m.Signature(), "|r1=") && k%r1stride == 0) {
 			models = append(models, m)
@@ -135,6 +135,7 @@ func C02(o *core.Options) int {
 	r.Set("models_in_family", len(models))
 	nodes := e2.RequestNodes(ref.DefaultUniverse())
 	subjects := []string{"user:a", "user:*", "group:1#member", "doc:2#r1"}
+	allSubjects := subjects
 	var engPool sync.Pool
 	engPool.New = func() any {
 		var es []*v1engine
@@ -312,8 +313,48 @@ func C02(o *core.Options) int {
 	c02FastPaths(o, r)
 	lap("fastpaths")
 	so := e2.SweepOpts{K: 2, ServerOpts: []server.OpenFGAServiceV1Option{server.WithRequestTimeout(0)}}
-	e2.Sweep(r, models, so, body)
-	lap("main")
+	// chains with a leftover tuple: recursive relations over THREE objects, two valid tuples and one stored tuple
+	// that the model in use does not admit (it differs from an admitted one in its condition, shape or type; it
+	// was written under a permissive model). Every strategy must ignore it at every depth of the expansion.
+	cu := ref.Universe{"user": {"user:a"}, "group": {"group:1", "group:2", "group:3"}, "doc": {"doc:1", "doc:2", "doc:3"}}
+	co := so
+	co.U, co.Leftover, co.FullPool = cu, true, true
+	co.LeftFilter = func(m *ref.Model, t ref.Tuple) bool {
+		d := m.Types[ref.TypeOf(t.Obj)][t.Rel]
+		if d == nil || !ref.HasThis(d.Rewrite) {
+			return false
+		}
+		for _, rs := range d.Restr {
+			if rs.Type == ref.TypeOf(t.User) {
+				return true // same user type as an admitted restriction: condition, shape or relation differs
+			}
+		}
+		return false
+	}
+	nodes = e2.RequestNodes(cu)
+	subjects = []string{"user:a"}
+	objOf := func(u string) string {
+		if i := strings.IndexByte(u, '#'); i >= 0 {
+			return u[:i]
+		}
+		return u
+	}
+	e2.Sweep(r, chainModels(), co, func(env *e2.Env, w *ref.World) {
+		// only chains: a valid tuple leads to the leftover tuple's object and the leftover tuple leads to
+		// the object of the other valid tuple (the leftover sits at depth >= 2 of an expansion)
+		if len(w.Tuples) != 3 {
+			return
+		}
+		lf, a, b := w.Tuples[2], w.Tuples[0], w.Tuples[1]
+		chain := func(t1, t2 ref.Tuple) bool { return objOf(t1.User) == lf.Obj && objOf(lf.User) == t2.Obj && t1.Obj != t2.Obj }
+		if !chain(a, b) && !chain(b, a) {
+			return
+		}
+		r.Count("worlds_chain_with_leftover_tuple", 1)
+		body(env, w)
+	})
+	nodes, subjects = e2.RequestNodes(ref.DefaultUniverse()), allSubjects
+	lap("chains-with-leftover")
 	// nested set operators over one object (ref.FlatFamily), up to 4 tuples
 	so.K, so.U = 4, ref.FlatUniverse()
 	nodes = e2.RequestNodes(so.U)
@@ -330,6 +371,10 @@ func C02(o *core.Options) int {
 	lap("flat")
 	c02ListObjects(o, r, models)
 	lap("listobjects")
+	// the broad family sweep last: it is the part an internal deadline may cut
+	so.K, so.U = 2, nil
+	e2.Sweep(r, models, so, body)
+	lap("main")
 	return r.Finish()
 }
 
@@ -454,11 +499,12 @@ func c02ListObjects(o *core.Options, r *core.Report, models []*ref.Model) {
 								}
 								sort.Strings(failing)
 								if uneval && onlyFailures && len(failing) > 0 {
-									which := "some-tunings:" + strings.Join(failing, "+")
+									// which engines consult the undecisive tuple depends on the model shape (reverse expansion
+									// from the user reaches it, the weighted graph prunes it, or the other way round): the set of
+									// failing tunings is a parameter of ONE mechanism, not part of its identity
+									which := "engine-dependent"
 									if len(failing) == len(outs) {
 										which = "every-tuning"
-									} else if len(failing) == 1 {
-										which = "only:" + failing[0]
 									}
 									sig += "/failure-on-unevaluable-condition-that-decides-no-object/" + which
 								}
@@ -553,4 +599,23 @@ func assignKeyPrintable(ch map[string]string, off map[string][]string) string {
 	}
 	sort.Strings(l)
 	return strings.Join(l, ",")
+}
+
+// chainModels: recursive relations (userset and tuple-to-userset) whose restrictions carry conditions, so that a
+// stored tuple can be inadmissible by its condition alone.
+func chainModels() []*ref.Model {
+	user, userC := ref.Restr{Type: "user"}, ref.Restr{Type: "user", Cond: "cx"}
+	mem, memC := ref.Restr{Type: "group", Rel: "member"}, ref.Restr{Type: "group", Rel: "member", Cond: "cx"}
+	r0C := ref.Restr{Type: "doc", Rel: "r0", Cond: "cx"}
+	docC := ref.Restr{Type: "doc", Cond: "cx"}
+	mk := func(group, doc map[string]*ref.RelDef) *ref.Model {
+		return &ref.Model{Conds: true, Types: map[string]map[string]*ref.RelDef{"user": {}, "group": group, "doc": doc}}
+	}
+	return []*ref.Model{
+		mk(map[string]*ref.RelDef{"member": rd(ref.This(), user, memC)}, map[string]*ref.RelDef{}),
+		mk(map[string]*ref.RelDef{"member": rd(ref.This(), userC, mem)}, map[string]*ref.RelDef{}),
+		mk(map[string]*ref.RelDef{}, map[string]*ref.RelDef{"parent": rd(ref.This(), docC), "r0": rd(ref.Bin(ref.KUnion, ref.This(), ref.TTU("parent", "r0")), user)}),
+		mk(map[string]*ref.RelDef{}, map[string]*ref.RelDef{"r0": rd(ref.This(), user, r0C)}),
+		mk(map[string]*ref.RelDef{"member": rd(ref.This(), user, memC)}, map[string]*ref.RelDef{"r0": rd(ref.This(), mem)}),
+	}
 }
